@@ -19,4 +19,19 @@ def genSharedInvolvedWorkers (bySetup : List Nat) (byCleanup : List Nat) (swarms
        return set(workers)
 -/
 
+/-- `TestNode.shared_results` of avocado_i2n/cartgraph/node.py.  `own` = `self.results`, `bridged` = `self.bridged_nodes` (in tuple order), `resultsOf m` = `m.results` -/
+def genSharedResults (own : List Result) (bridged : List Nat) (resultsOf : Nat → List Result) : List Result := Id.run do
+  let mut results : List Result := own
+  results := bridged.foldl (fun results bridged_node => (results ++ (resultsOf bridged_node))) results
+  return results
+
+/- the Python it was generated from (comments and docstring dropped):
+   @property
+   def shared_results(self) -> list[dict[str, str]]:
+       results = list(self.results)
+       for bridged_node in self.bridged_nodes:
+           results += bridged_node.results
+       return results
+-/
+
 end I2N.Extracted.GenInvolved
